@@ -175,3 +175,30 @@ Theorem C01_det_layout : forall norb a b beta i,
   det_of norb a b = det2 norb a b /\ pos_of norb beta i = pos2 norb beta i.
 Proof. intros. split; reflexivity. Qed.
 Print Assumptions C01_det_layout.
+
+(* --- the Knowles-Handy D-vector algorithm (DvecThm.v): fold h2 into h1, D_jl = E_jl psi by the excitation tables,
+   contract with -h2, second table sweep: the result has the coefficients of
+   (sum h1[i,l] E_il + sum h2[i,j,k,l] sum_{rho,eta} a†_{i rho} a†_{j eta} a_{k rho} a_{l eta}) psi -
+   every norb, every h1, h2 over any commutative ring, every sparse vector *)
+From FQE Require Import DvecThm.
+Theorem C01_dvector_algorithm_sound :
+  forall (R : Type) (rO rI : R) (radd rmul rsub : R -> R -> R) (ropp : R -> R),
+  ring_theory rO rI radd rmul rsub ropp eq ->
+  forall (norb : nat) (h1 : nat -> nat -> R) (h2 : nat -> nat -> nat -> nat -> R) (v : svec R) (d : det),
+  coeff R rO radd (vecof R norb (dvec_apply R rO rI radd rmul ropp norb h1 h2 v)) d
+  = coeff R rO radd (act_poly R rmul ropp (restricted_poly R norb h1 h2) (vecof R norb v)) d.
+Proof. exact dvec_apply_sound. Qed.
+Print Assumptions C01_dvector_algorithm_sound.
+
+(* non-vacuity over Z: 2 orbitals, |alpha {0}, beta {0}> + 2 |alpha {1}, beta {0}>, a dense h1 and h2; the D-vector
+   result and the operator action have the same (non-zero) coefficients on all four determinants of the sector *)
+From Coq Require Import ZArith.
+Example C01_dvector_example :
+  let h1 := fun i l => Z.of_nat (1 + i + 2 * l) in
+  let h2 := fun i j k l => Z.of_nat (1 + i + 2 * j + 3 * k + 5 * l) in
+  let v := [(1%N, 1%N, 1%Z); (2%N, 1%N, 2%Z)] in
+  let ds := [det2 2 1 1; det2 2 2 1; det2 2 1 2; det2 2 2 2] in
+  map (coeff Z 0%Z Z.add (vecof Z 2 (dvec_apply Z 0%Z 1%Z Z.add Z.mul Z.opp 2 h1 h2 v))) ds
+  = map (coeff Z 0%Z Z.add (act_poly Z Z.mul Z.opp (restricted_poly Z 2 h1 h2) (vecof Z 2 v))) ds
+  /\ map (coeff Z 0%Z Z.add (vecof Z 2 (dvec_apply Z 0%Z 1%Z Z.add Z.mul Z.opp 2 h1 h2 v))) ds <> [0; 0; 0; 0]%Z.
+Proof. vm_compute. split; [reflexivity|discriminate]. Qed.
